@@ -1,6 +1,6 @@
 """C05 - starting an update never destroys the newest confirmed firmware.
 Proof: props/C05.v.  Correspondence + oracle: (i) closure of the header-level lifecycle executed on the real SlotManager
-(every reachable arrangement x every operation incl. the crash prefixes of start); (ii) random histories with real deliveries."""
+(every reachable arrangement x every operation incl. the crash prefixes of start, among them every half-written header); (ii) random histories with real deliveries."""
 import random
 from . import core, session, ring
 
@@ -8,7 +8,7 @@ def closure_part(chk, keys, quick_plan=((4, 100000, 240), (5, 2500, 60)), thorou
     plan = quick_plan if chk.quick() else thorough_plan
     res = []
     for ns, cap, budget in plan:
-        r = ring.explore(chk, ns, cap, budget_s=budget, stop_keys=keys)
+        r = ring.explore(chk, ns, cap, budget_s=budget, stop_keys=keys, torn_start="c05" in keys)
         res.append(r)
         chk.failures += [f for f in r["fails"] if f.key in keys]
         chk.cov["evaluations"] += r["transitions"]
@@ -35,7 +35,7 @@ def run(chk):
         if out[s.meta["fb_before"]][0].startswith("some"): nt.append(l)
     chk.note_cases("session-history", lines, nt, sample_n=1, dist={"with_confirmed_fallback": len(nt)})
     return chk.finish(level="proof",
-        rule="ring-closure: every header arrangement reachable under start (4 crash prefixes + full), complete (+ prefix), cancel (+ prefixes), recover, copy-done, confirm, reject, modulo sequence-number shift, re-created on SimNor and every operation executed on the real SlotManager and on the model (quick: N=4 to closure, N=5 bounded; thorough: N=4,5,6 to closure); "
+        rule="ring-closure: every header arrangement reachable under start (3 crash prefixes + full; and, where a confirmed image exists, power lost after each of the 7 proper prefixes of its header programs followed by reboot, fallback query, recovery, a new start, fallback query), complete (+ prefix), cancel (+ prefixes), recover, copy-done, confirm, reject, modulo sequence-number shift, re-created on SimNor and every operation executed on the real SlotManager and on the model (quick: N=4 to closure, N=5 bounded; thorough: N=4,5,6 to closure); "
              "session-history: random histories with real deliveries, fallback queried and validated before / after; non-trivial = a state or a history with a confirmed image; distinct = distinct (headers, ghost) states / case text",
         trusted=core.TRUSTED_COMMON + ["C05: the lifecycle ghost in fvlib/ring.py is written from the property text, independently of the Coq model",
                                         "sequence numbers are assumed not to reach the 2^32-2 wrap (nowrap); the closure is modulo sequence-number shift"])
